@@ -188,7 +188,7 @@ def tpl_cmd(cls, m, k, i1, i2, i3, flag, g, n, setv, lk=0, _twin=False):
         w.close(code)
 
 
-CONV_ARGS = ("[1, 2]", "7", "[]", "{'a': [1]}")
+CONV_ARGS = ("[1, 2]", "7", "[]", "{'a': [1]}", "'ab'")   # the last one: an argument that is itself a quoted literal (round 17)
 
 
 def tpl_conv(x1, a1, x2, a2, x3, a3, x4, a4, _twin=False):
